@@ -13,7 +13,9 @@
 //	    crash probes: the source is handled the way the VM keeper's Run handler does
 //	    (validate, go/types, Machine with gas meter + allocation cap + preprocess allocator,
 //	    RunMemPackage, main), in a CHILD PROCESS with a watchdog.
-//	    output: allowed | crash:vm-panic | crash:runtime-error | crash:fatal | crash:hang
+//	    output: allowed | crash:vm-panic | crash:runtime-error | crash:fatal | crash:resource
+//	    (crash:resource = no result within the watchdog although the gas is bounded, or the
+//	    live Go heap of the child grew by more than twice the 500 MB allocation cap)
 //	    oracle: VIOL:internal-fault unless the ending is success, a validation/type error, a
 //	    Gno panic, out of gas or the allocation limit.
 package main
@@ -297,7 +299,7 @@ func childMain() {
 	in.Buffer(make([]byte, 1<<20), 1<<28)
 	w := bufio.NewWriter(os.Stdout)
 	pr := minigo.NewProber(minigo.RepoDir())
-	limit := 150 * time.Second
+	limit := 300 * time.Second
 	for in.Scan() {
 		t := strings.Fields(in.Text())
 		src, gas, ok := probeSource(t)
@@ -357,7 +359,7 @@ func runProbes(lines []string) []probeOut {
 			next++
 		}
 		werr := cmd.Wait()
-		selfExit := next > start && (res[next-1].class == "crash:hang" || res[next-1].class == "crash:mem-growth")
+		selfExit := next > start && res[next-1].class == "crash:resource"
 		if next < len(lines) && !selfExit {
 			// the child died while handling line `next`
 			detail := "child exited"
